@@ -575,3 +575,7 @@ def run(ctx):
     rule_e(ctx)
     rule_f(ctx)
     rule_g(ctx)
+    # obligations shared with a sibling property (evaluated by the owning module, reported here under letter x)
+    from engine.rulelib import share as _share
+    _share(ctx, 'C15', 'rule_c', 'x', 'only a validated previous path is kept as fallback and challenged: an unvalidated one would be sent a padded PATH_CHALLENGE outside its anti-amplification budget')
+
